@@ -120,6 +120,17 @@ def feval(d, x):
     return v - c, abs(v) * 4 + abs(c) + der * arg * 4
 
 
+def double_zero(d, x):
+    """is the function value exactly 0.0 when evaluated in double the way the harness does (Horner)?"""
+    if d["kind"] == "poly":
+        r = 0.0
+        for c in reversed(d["p"]):
+            r = c + x * r
+        return r == 0.0
+    v = feval(d, Fraction(x))
+    return v is not None and v[0] == 0
+
+
 def fn_str(d):
     k = d["kind"]
     if k == "poly":
@@ -300,6 +311,20 @@ def generate(tier, seed, ctx):
             ok = False
         if ok:
             add(d, a, b, acc_for(r0 if r0 else 1.0, b - a), "fam/" + k)
+    # 7a. deterministic: an end that is a zero exactly in double (dyadic roots, exact expanded coefficients) ------
+    for a in (-2.0, 0.0, 0.5, 1.25):
+        for w in (0.5, 1.0, 4.0):
+            for side in ("left", "right"):
+                e = a + w if side == "left" else a - w          # the other end
+                sgnw = 1.0 if side == "left" else -1.0
+                for inner in ([], [0.25], [0.5], [0.75], [0.25, 0.75], [0.125, 0.5], [0.25, 0.5, 0.75]):
+                    for outer in ([], [2.0], [-1.0]):
+                        for lead in (1.0, -1.0):
+                            roots = [a] + [a + sgnw * w * t for t in inner] + [a + sgnw * w * t for t in outer]
+                            d = dict(kind="poly", p=poly_from_roots(roots, lead))
+                            if not double_zero(d, a) or double_zero(d, e):
+                                continue
+                            add(d, a, e, w * rng.choice([2.0 ** -20, 2.0 ** -6, 0.25]), "guard/zero-end-exact/%d" % len(inner))
     # 7. guards: zero ends, no sign change, NaN ends -----------------------------------------------------------
     for _ in range(50 * N):
         r0 = dyadic(rng, -8, 8, 2); other = r0 + rng.choice([-1, 1]) * rng.choice([0.5, 1.0, 2.25])
@@ -359,11 +384,15 @@ def oracle(q, I, ctx):
     if flo is None or fhi is None or sgn(flo[0]) * sgn(fhi[0]) > 0:
         out.append(fail("prop", "a number was returned for a bracket without sign change / with NaN ends", "r=%r" % r))
         return out
-    # zero ends are returned as they are
+    # zero ends are returned as they are (the left one first), after exactly the two evaluations at the ends
+    # (findRoot_end_zero).  Applied when the end value is zero exactly AND in double evaluation.
     if flo[0] == 0 or fhi[0] == 0:
         exp = lo if flo[0] == 0 else hi
-        if r != exp:
-            out.append(fail("prop", "a bracket end that is a zero is not returned as is", "r=%r end=%r" % (r, exp)))
+        if double_zero(d, exp):
+            if not (r == exp and math.copysign(1, r) == math.copysign(1, exp)) or len(I["xs"]) != 2:
+                out.append(fail("prop", "a bracket end that is a zero of the function is not returned as is",
+                                "returned %r after %d evaluations, zero end %r" % (r, len(I["xs"]), exp)))
+            bump(ctx, "zero end exactly 0.0 in double")
         return out
     W = Fraction(hi) - Fraction(lo)
     delta = Fraction(acc)
